@@ -72,13 +72,16 @@ ORDER_CHANGING = {"sort", "sort_by", "sort_by_key", "sort_unstable", "sort_unsta
                   "retain", "dedup", "rotate_left", "rotate_right", "swap_remove", "remove", "truncate", "pop", "insert", "drain"}
 
 
-def _agg_field_roots(fn, flow, adt_suffix, field):
+def _agg_field_roots(fn, flow, adt_suffix, field, fx=None, stop_names=()):
+    """roots of one field of every aggregate of the given type built in the function (with fx: also those built by calling a
+    constructor-like helper, and roots traced through helpers that return the collection)"""
+    from ..mir import aggregates
     out = []
-    for bi, si, s in fn.stmts():
+    for bi, s in aggregates(fn, fx):
         rv = s["rv"]
         if rv["k"] == "agg" and rv.get("agg") == "adt" and rv["adt"].endswith(adt_suffix) and field in rv["fields"]:
             op = rv["ops"][rv["fields"].index(field)]
-            out.append((s, prov.strip_loop(prov.collection_roots(fn, flow, op))))
+            out.append((s, prov.strip_loop(prov.collection_roots(fn, flow, op, fx=fx, stop_names=stop_names))))
     return out
 
 
@@ -118,8 +121,14 @@ def rule_samesrc(ctx):
         for t in tfv:
             set_roots |= prov.strip_loop(prov.collection_roots(fn, flow, t["args"][1]))
         ok = True
+
+        def _n(rs):
+            # `unzip` hands on one component of its pairs: the collection it came from is the same
+            return {(o[0], o[1]) if o[0] == "call" else o for o in rs}
+        set_roots = _n(set_roots)
         for what, lst in (("parameter list", d), ("argument list", c)):
             for s, roots in lst:
+                roots = _n(roots)
                 ikey = "%s:%s" % (key, what.replace(" ", "-"))
                 if roots == set_roots and len(roots) == 1:
                     res.inst(ikey, s["sp"]["file"], s["sp"]["line"], "ok", "built from the typed_free_vars set")
@@ -132,7 +141,7 @@ def rule_samesrc(ctx):
         if key.endswith("lift"):
             ss = [t for bi, t in fn.calls() if t.get("callee_name") == "subst_sim"]
             for t in ss:
-                roots = prov.strip_loop(prov.collection_roots(fn, flow, t["args"][1]))
+                roots = _n(prov.strip_loop(prov.collection_roots(fn, flow, t["args"][1])))
                 ikey = key + ":renaming"
                 if roots == set_roots:
                     res.inst(ikey, t["sp"]["file"], t["sp"]["line"], "ok")
@@ -161,12 +170,12 @@ def rule_declsrc(ctx):
         fn = Fn(fx.fn(key))
         flow = prov.make_flow(fn, fx, extra_names=())
         holder = "switch::Switch" if key.endswith("unknown_cuts") else "create::Create"
-        lst = [(s, r) for s, r in _agg_field_roots(fn, flow, holder, "clauses")]
+        lst = [(s, r) for s, r in _agg_field_roots(fn, flow, holder, "clauses", fx=fx, stop_names=("lookup_type_declaration",))]
         # keep only those built by a map over a lookup (the integer special cases build literal vec![..])
         n_ok = 0
         for s, roots in lst:
-            calls = {fn.term(o[1]).get("callee_name") for o in roots if o[0] == "call"}
-            if calls == {"lookup_type_declaration"} and all(o[0] == "call" for o in roots):
+            calls = {fn.term(o[1]).get("callee_name") if o[0] == "call" else o[1] for o in roots if o[0] in ("call", "hcall")}
+            if calls == {"lookup_type_declaration"} and all(o[0] in ("call", "hcall") for o in roots):
                 n_ok += 1
                 res.inst(key + ":clauses-from-declaration", s["sp"]["file"], s["sp"]["line"], "ok", "map over lookup_type_declaration(..).xtors")
             elif (any(o[0] == "agg" for o in roots) and not calls) or (calls and calls <= {"box_assume_init_into_vec_unsafe", "into_vec"}):
@@ -205,8 +214,15 @@ def rule_declsrc(ctx):
                 return prov.strip_loop(prov.collection_roots(cfn, cflow, rv["ops"][rv["fields"].index(fld)]))
             tag_ok = roots(crv, "xtor") == roots(irv, "tag")
             env_ok = roots(crv, "context") == roots(irv, "args")
-            fresh = any(t.get("callee_name") == "fresh_identifier" for k2, g2 in fx.fns.items() if (g2.get("parent") or "").startswith(ck) or k2 == ck
-                        for _, t in Fn(g2).calls())
+            def _calls_fresh(k2, depth=0):
+                for _, t in Fn(fx.fns[k2]).calls():
+                    if t.get("callee_name") == "fresh_identifier":
+                        return True
+                    k3 = t.get("resolved_key") or (t.get("callee_key") if not t.get("callee_trait") else None)
+                    if depth < 1 and k3 in fx.fns and fx.fns[k3]["crate"] == "core2axcut" and _calls_fresh(k3, depth + 1):
+                        return True
+                return False
+            fresh = any(_calls_fresh(k2) for k2, g2 in fx.fns.items() if (g2.get("parent") or "").startswith(ck) or k2 == ck)
             for nm, okk, msg in (("tag", tag_ok, "the clause's xtor and the tag of the %s in its body come from different sources" % inner_adt.split("::")[-1]),
                                  ("env", env_ok, "the clause's binders and the arguments of the %s in its body are different lists" % inner_adt.split("::")[-1]),
                                  ("fresh", fresh, "the clause binders are no longer renamed with fresh_identifier")):
